@@ -57,6 +57,9 @@ Relations(ev) ==
      \cup chk(\A i \in Seq25 : Close(ev.Th[i], Thoms(ev.th[i])) /\ Close(ev.KN[i], KNForm(KRatio(E, ev.th[i]), ev.th[i])) /\ Close(ev.CE[i], FMul(E, KRatio(E, ev.th[i])))
                                /\ FClose(ev.MT[i], FMul(FDiv(E, K2A), FSin(FDiv(ev.th[i], Two))), Tol, Tiny), "pointwise closed form (Thomson / Klein-Nishina / Compton energy / momentum transfer)")
      \cup chk(\A i \in Seq25 : \A j \in 1..8 : Close(ev.ThP[(i - 1) * 8 + j], ThomsP(ev.th[i], ev.ph[j])) /\ Close(ev.KNP[(i - 1) * 8 + j], KNPForm(KRatio(E, ev.th[i]), ev.th[i], ev.ph[j])), "pointwise closed form (polarised)")
+     \* the same closed forms at angles of many turns (up to 1e15 rad), where only an exact argument reduction keeps them
+     \cup chk(\A i \in 1..Len(ev.hth) : Close(ev.hTh[i], Thoms(ev.hth[i])) /\ Close(ev.hKN[i], KNForm(KRatio(E, ev.hth[i]), ev.hth[i])) /\ Close(ev.hCE[i], FMul(E, KRatio(E, ev.hth[i])))
+                                        /\ Close(ev.hKNP[i], KNPForm(KRatio(E, ev.hth[i]), ev.hth[i], ev.ph[2])), "pointwise closed form at an angle of many turns")
 \* non-positive energy is an error for every function of E (the last entry, DCS_Thoms, has no energy argument)
 BadEnergy(ev) == IF (\A i \in 1..5 : ev.err[i] = 1 /\ FEq(ev.v[i], Zero)) /\ ev.err[6] = 0 THEN {} ELSE {"a function accepted a non-positive energy"}
 ============================================================================
